@@ -51,6 +51,10 @@ func (x *exch) oracle(r *hk.Run) {
 	fail := func(what, msg string, got, want interface{}) {
 		r.Fail(hk.Failure{Sig: x.sigBase() + ":" + what, What: msg, Input: x.desc(), Got: got, Want: want})
 	}
+	if x.Cut {
+		x.cutOracle(fail)
+		return
+	}
 	switch {
 	case s.Hung:
 		fail("hang", "the exchange did not finish within 60 s", nil, nil)
@@ -238,6 +242,42 @@ func nonEmptyH(h map[string][]string) map[string][]string {
 		m[k] = v
 	}
 	return m
+}
+
+// cutOracle: the origin's response was cut (connection closed) before its end: whatever the cut point, the
+// caller must not be handed a "complete" response - some error must surface in the read mode used - and what
+// it did receive must be a prefix of the body.
+func (x *exch) cutOracle(fail func(what, msg string, got, want interface{})) {
+	s := &x.s
+	if s.Hung || s.Panic != "" {
+		fail("cut-hang", "hang / panic on a cut response: "+s.Panic, nil, nil)
+		return
+	}
+	complete := false
+	var got []byte
+	switch x.Mode {
+	case "auto":
+		complete, got = s.CallErr == "" && !s.NoResp, s.Bytes
+	case "stream":
+		complete, got = !s.NoResp && s.CallErr == "" && s.StreamEnd == "eof", s.Stream
+	case "tobytes":
+		complete, got = !s.NoResp && s.CallErr == "" && s.StreamEnd == "eof", s.Stream
+	default:
+		complete, got = s.CallErr == "" && !s.NoResp, s.Out
+	}
+	where := "in-body"
+	switch {
+	case x.CutAt < x.hdrLen:
+		where = "in-head"
+	case x.H1.Framing == wire.FrChunked && x.CutAt >= len(x.wire)-2-len(trailerBytes(x)):
+		where = "in-trailer-section"
+	}
+	if complete {
+		fail("cut-delivered-as-complete:"+where, fmt.Sprintf("the response was cut after %d of %d bytes but was delivered as a complete response (trailers %v)", x.CutAt, len(x.wire), s.Trailer), s.Trailer, "an error")
+	}
+	if !bytes.HasPrefix(x.A.Body, got) {
+		fail("cut-not-prefix", "bytes delivered from a cut response are not a prefix of the body", digest(got), digest(x.A.Body))
+	}
 }
 
 func (x *exch) carriesTrailers() bool {
